@@ -4,7 +4,8 @@
 //
 //   h_shutdown path=<quit|reset|noexec|noapp|cycles|race|leakapp|scoped> backlog=<n> delay=<ms> [async=1] [cfg=0] [double=0] [install=1]
 //              [relog=0] (the sink logs once per delivered message, from the worker thread)
-//              [movethread=0] (moveToOwnThread called from a short-lived non-main thread) [concurrent=0] (probe)
+//              [movethread=0] (moveToOwnThread called from a short-lived non-main thread) [concurrent=0]
+//              [moveagain=0] (moveToOwnThread once more, while the backlog is queued, right before the stop)
 //              [stagger=0] [after=2] [cycles=3] [producers=3] [per=20] [loop=1] [stop=reset|quit]
 //              [seed=1] [pace=<us>] [yield=<point>:<us>,...]
 //
@@ -62,7 +63,7 @@ static std::deque<int> *g_foreign = new std::deque<int>;
 struct Yield { char name[40]; int us; };
 static Yield g_yield[16];
 static int g_nyield = 0;
-static bool g_relog = false, g_movethread = false, g_concurrent = false;
+static bool g_relog = false, g_movethread = false, g_concurrent = false, g_moveagain = false;
 
 extern "C" void qtlogger_verif_point(const char *name)
 {
@@ -181,8 +182,16 @@ static void setup(bool async, bool cfg, int delay)
     }
 }
 
+// switch asynchronous mode on a second time (what a second configure(async=true) does) while the
+// backlog just logged is still queued
+static void moveAgain()
+{
+    if (g_moveagain) doMove();
+}
+
 static void doReset()
 {
+    moveAgain();
     emitf("STOP_BEGIN\n");
     if (g_concurrent) { // two threads stop at the same time
         std::thread t([]() { t_stopper = 1; L->resetOwnThread(); emitf("STOP_END 1\n"); });
@@ -219,7 +228,7 @@ int main(int argc, char **argv)
         if (eq) A[std::string(argv[i], eq - argv[i])] = eq + 1;
     }
     const std::string path = gets("path", "reset");
-    g_relog = geti("relog", 0); g_movethread = geti("movethread", 0); g_concurrent = geti("concurrent", 0);
+    g_relog = geti("relog", 0); g_movethread = geti("movethread", 0); g_concurrent = geti("concurrent", 0); g_moveagain = geti("moveagain", 0);
     const int backlog = geti("backlog", 5), delay = geti("delay", 0), after = geti("after", 2);
     const bool async = geti("async", 1), cfg = geti("cfg", 0), stagger = geti("stagger", 0), loop = geti("loop", 1);
     const int cycles = geti("cycles", 3), P = geti("producers", 3), per = geti("per", 20), seed = geti("seed", 1);
@@ -281,6 +290,7 @@ int main(int argc, char **argv)
                 burst(backlog, stagger);
             } else if (path == "scoped") { // an own Logger object destroyed while the application lives
                 burst(backlog, stagger);
+                moveAgain();
                 emitf("STOP_BEGIN\n");
                 delete L;
                 emitf("STOP_END 0\n");
@@ -311,7 +321,7 @@ int main(int argc, char **argv)
         if (loop || viaQuit) {
             QTimer::singleShot(0, &app, [&]() {
                 body();
-                if (viaQuit) emitf("STOP_BEGIN\n");
+                if (viaQuit) { moveAgain(); emitf("STOP_BEGIN\n"); }
                 app.quit();
             });
             app.exec(); // aboutToQuit -> resetOwnThread
